@@ -46,7 +46,7 @@ TRUSTED_BASE = [
 logging.disable(logging.CRITICAL)
 WORLD_SPECS = [
     {"seed": 0, "centred3": True, "centred2": False},
-    {"seed": 1, "centred3": False, "centred2": True, "n2": 9, "n3": 10},
+    {"seed": 1, "centred3": False, "centred2": True, "n2": 9, "n3": 10, "tperm": True},
     {"seed": 2, "centred3": True, "centred2": True, "n2": 11, "n3": 8, "nframes": 4},
     {"seed": 3, "centred3": False, "centred2": False, "n2": 8, "n3": 11},
 ]
